@@ -1,0 +1,19 @@
+//go:build verif
+
+package operator
+
+import (
+	"reduction.dev/reduction/partitioning"
+	"reduction.dev/reduction/proto"
+)
+
+// VerifNewOperatorPartitionWithNeighbors builds the data ownership policy that HandleDeploy gives to the DKV
+// instance: the operator's own key group range and one neighbor partition per other operator of the assembly
+// (build tag verif only).
+func VerifNewOperatorPartitionWithNeighbors(own partitioning.KeyGroupRange, ranges []partitioning.KeyGroupRange, ops []proto.Operator) *OperatorPartition {
+	neighbors := make([]neighborPartition, len(ranges))
+	for i := range ranges {
+		neighbors[i] = neighborPartition{keyGroupRange: ranges[i], operator: ops[i]}
+	}
+	return newOperatorPartition(own, neighbors)
+}
